@@ -175,6 +175,22 @@ func (w *World) IntTable(pkgPath, name string) ([]*big.Int, error) {
 		return nil, fmt.Errorf("no initialiser for %s", name)
 	}
 	l := EvalLit(e, info)
+	if l.Kind == "call" {
+		// initialised by a generator: accepted when the callee is verified to build the table of powers of ten
+		if ce, ok := l.Expr.(*ast.CallExpr); ok && len(ce.Args) == 0 {
+			if id, ok := ce.Fun.(*ast.Ident); ok {
+				if fo, ok := info.ObjectOf(id).(*types.Func); ok {
+					if f := w.Prog.FuncValue(fo); f != nil {
+						if tab, why := pow10TableGen(f); why == "" {
+							return tab, nil
+						} else {
+							return nil, fmt.Errorf("%s is built by %s, which is not recognised as the powers-of-ten generator: %s", name, f.Name(), why)
+						}
+					}
+				}
+			}
+		}
+	}
 	if l.Kind != "list" {
 		return nil, fmt.Errorf("%s is not an array/slice literal", name)
 	}
@@ -339,4 +355,122 @@ func (tb *TB) GlobalRooted(t *Term) []*Term {
 		}
 	}
 	return out
+}
+
+// pow10TableGen recognises the generator "pow := 1; for d := 1; d <= N; d++ { pow *= 10; table[d] = pow }; return table"
+// (N a constant, table a [N+1]uint64 result, pow a uint64) and returns the table it builds: [0, 10, 100, …, 10^N].
+// A structural recognition (one loop, one store, one accumulator multiplied by the constant 10 before each store);
+// the generator is not executed.
+func pow10TableGen(f *ssa.Function) ([]*big.Int, string) {
+	if f == nil || f.Blocks == nil || len(f.Params) != 0 || f.Signature.Results().Len() != 1 {
+		return nil, "not a parameterless function with one result"
+	}
+	arr, ok := f.Signature.Results().At(0).Type().Underlying().(*types.Array)
+	if !ok {
+		return nil, "the result is not an array"
+	}
+	if b, ok := arr.Elem().Underlying().(*types.Basic); !ok || b.Kind() != types.Uint64 {
+		return nil, "the table elements are not uint64"
+	}
+	var stores []*ssa.Store
+	for _, b := range f.Blocks {
+		for _, in := range b.Instrs {
+			if st, ok := in.(*ssa.Store); ok {
+				if _, isIA := st.Addr.(*ssa.IndexAddr); isIA {
+					stores = append(stores, st)
+				} else if _, isAlloc := st.Addr.(*ssa.Alloc); !isAlloc {
+					return nil, "a store other than into the table"
+				}
+			}
+			if ci, ok := in.(ssa.CallInstruction); ok {
+				if _, isB := ci.Common().Value.(*ssa.Builtin); !isB {
+					return nil, "the generator calls other functions"
+				}
+			}
+		}
+	}
+	if len(stores) != 1 {
+		return nil, fmt.Sprintf("%d indexed stores, expected one", len(stores))
+	}
+	st := stores[0]
+	ia := st.Addr.(*ssa.IndexAddr)
+	d, ok := ia.Index.(*ssa.Phi)
+	if !ok {
+		return nil, "the index is not a loop counter"
+	}
+	ind := InductionOf(d)
+	if ind == nil || ind.Step != 1 || len(ind.Inits) != 1 || !isConstInt(ind.Inits[0], 1) {
+		return nil, "the index does not run upwards from 1 in steps of one"
+	}
+	h := d.Block()
+	iff, ok := h.Instrs[len(h.Instrs)-1].(*ssa.If)
+	if !ok {
+		return nil, "the loop head has no test"
+	}
+	bo, ok := iff.Cond.(*ssa.BinOp)
+	if !ok || bo.X != ssa.Value(d) {
+		return nil, "the loop test is not on the index"
+	}
+	k, isK := constInt(bo.Y)
+	if !isK {
+		return nil, "the loop bound is not a constant"
+	}
+	n := k.Int64()
+	switch bo.Op {
+	case token.LEQ:
+	case token.LSS:
+		n--
+	default:
+		return nil, "the loop does not run while index <= N"
+	}
+	if n+1 != arr.Len() || n < 1 || n > 19 {
+		return nil, "the loop does not fill exactly the entries 1..len-1"
+	}
+	if !(h.Succs[0] == st.Block() || h.Succs[0].Dominates(st.Block())) {
+		return nil, "the store is not in the loop body"
+	}
+	// the stored value: pow*10 with pow = phi(1, that product), in uint64
+	mul, ok := st.Val.(*ssa.BinOp)
+	if !ok || mul.Op != token.MUL {
+		return nil, "the stored value is not a product"
+	}
+	var acc ssa.Value
+	switch {
+	case isConstInt(mul.Y, 10):
+		acc = mul.X
+	case isConstInt(mul.X, 10):
+		acc = mul.Y
+	default:
+		return nil, "the accumulator is not multiplied by the constant 10"
+	}
+	ph, ok := acc.(*ssa.Phi)
+	if !ok || ph.Block() != h {
+		return nil, "the accumulator is not carried around the loop"
+	}
+	if b, ok := ph.Type().Underlying().(*types.Basic); !ok || b.Kind() != types.Uint64 {
+		return nil, "the accumulator is not uint64 (10^10 would wrap)"
+	}
+	for i, e := range ph.Edges {
+		if h.Dominates(h.Preds[i]) {
+			if e != ssa.Value(mul) {
+				return nil, "the accumulator is not updated to the stored product on every iteration"
+			}
+		} else if !isConstInt(e, 1) {
+			return nil, "the accumulator does not start at 1"
+		}
+	}
+	// the result is the filled array
+	for _, r := range Returns(f) {
+		ld, ok := r.Results[0].(*ssa.UnOp)
+		if !ok || ld.X != ia.X {
+			return nil, "the result is not the filled table"
+		}
+	}
+	out := []*big.Int{bi(0)}
+	p := bi(1)
+	for i := int64(1); i <= n; i++ {
+		p = new(big.Int).Mul(p, bi(10))
+		out = append(out, p)
+	}
+	return out, ""
 }
